@@ -101,6 +101,21 @@ CLAIMS["C11"] = dict(
     technique="def-use / return-value provenance in the registry update + exhaustive abstract evaluation of the sharedness predicate over symbolic directory layouts + no-destructive-call table",
     ref="3/C11",
 )
+CLAIMS["C09"] = dict(
+    text="Decides the sources of nondeterminism and the diff logic, not byte-identity of two runs: (1) every iteration (for, "
+    "comprehension, join, list(), enumerate, star) over a value inferred to be a set / frozenset / dict-of-set container / list(set) in "
+    "the live generator is wrapped in sorted() or consumed / handled order-insensitively (loop bodies restricted to set insertion, "
+    "import registration, logging); (2) every ambient source site (id, hash, clocks, random, uuid, cwd, pid, environment, temp names) "
+    "is classified: logs, visited keys, timing bookkeeping, documented option variables, dead `or os.getcwd()` fallback; the id()-"
+    "derived schema name needs a guard-correlation proof (assigned only under G, used only where G is false); (3) module/class-level "
+    "mutable state with a writer reachable on the generation path; (4) _show_diffs walks all generated *.py recursively, flags content "
+    "differences and files missing from the existing tree, and every result feeds the raise; (5) compare-only generation seeds the "
+    "temp core with the real exception registry before emitting; (6) both generation branches run the same emitter sequence once each "
+    "and write the same generator-owned files, and emit-time operation-id renaming loops until free and records the final name "
+    "(idempotent).",
+    technique="set-ness type inference + order-observability analysis of each iteration site; ambient-source taint with guard correlation; sibling-branch comparison of emitter sequences; must-set-flag path checks in the diff routine",
+    ref="3/C09",
+)
 
 NOT_APPLICABLE = {}
 
